@@ -1,4 +1,5 @@
 import GraphSlam.Props.C12.Ctl
 import GraphSlam.Props.C12.State
+import GraphSlam.Props.E2E.Run
 
 /-! C12 — umbrella. -/
